@@ -322,6 +322,7 @@ func check(prop, tier string, seed uint64) int {
 	knownSeen := map[int]int{}
 	stop := false
 	sampleGiven := map[int]bool{}
+	isolated := map[int]bool{}
 
 	takeChunk := func() (int, uint64, uint64, bool) {
 		mu.Lock()
@@ -376,9 +377,33 @@ func check(prop, tier string, seed uint64) int {
 					args = append(args, "-sample", "1")
 				}
 				mu.Unlock()
+				mu.Lock()
+				iso := isolated[li]
+				mu.Unlock()
+				if iso {
+					args = append(args, "-isolate")
+				}
 				wo := runWorker(bt.bins[lc.Race], 30*time.Minute, args...)
 				if wo.err != nil {
 					infra("%v\n%s", wo.err, wo.stderr)
+				}
+				if wo.exit == 77 {
+					// Runs in one process depend on each other (the library keeps
+					// goroutines/state at package level): redo the unfinished part
+					// of the chunk, and every later chunk of this lane, one
+					// process per run.
+					a.add(lc.Name, wo)
+					var at uint64 = from
+					for _, l := range wo.lines {
+						if l.T == "start" {
+							at = l.Run
+						}
+					}
+					mu.Lock()
+					isolated[li] = true
+					states[li].retry = append(states[li].retry, [2]uint64{at, to})
+					mu.Unlock()
+					continue
 				}
 				if wo.exit != 0 && wo.exit != 66 {
 					infra("worker exited %d (lane %s runs %d..%d)\n%s", wo.exit, lc.Name, from, to, wo.stderr)
